@@ -59,6 +59,18 @@ static void checkModel(verif::Run& run, const std::string& section, const std::v
     M.matter.multiplyByM(s, g, out);
     { DMat gr = ref::mul(Mref, mbref::fromVector(g)); run.residual("multiplyByM-generic", (double)(ref::maxAbsDiff(mbref::fromVector(out), gr) / std::max<LD>(ref::maxAbs(gr), scale)), TOL, where); }
 
+    // the same generic product with non-contiguous argument layouts (rows of a matrix): in/out, in only, out only
+    {
+        Matrix A(3, nu); A = 0; for (int i = 0; i < nu; ++i) A(1, i) = g[i];
+        Matrix Bm(3, nu); Bm.setTo(-7);
+        DMat gr = ref::mul(Mref, mbref::fromVector(g));
+        M.matter.multiplyByM(s, ~A[1], ~Bm[1]);
+        { Vector o2(nu); for (int i = 0; i < nu; ++i) o2[i] = Bm(1, i); run.residual("multiplyByM-strided-in-and-out", (double)(ref::maxAbsDiff(mbref::fromVector(o2), gr) / std::max<LD>(ref::maxAbs(gr), scale)), TOL, where); }
+        bool untouched = true; for (int i = 0; i < nu; ++i) untouched &= Bm(0, i) == -7 && Bm(2, i) == -7;
+        run.expect(untouched, "multiplyByM-strided-output-overwrites-neighbours", [&] { return "rows next to the strided result row were modified at " + desc; });
+        Vector o3(nu); M.matter.multiplyByM(s, ~A[1], o3);
+        run.residual("multiplyByM-strided-in", (double)(ref::maxAbsDiff(mbref::fromVector(o3), gr) / std::max<LD>(ref::maxAbs(gr), scale)), TOL, where);
+    }
     // reference inverse and condition estimate
     DMat MrefInv; bool inv = ref::inverse(Mref, MrefInv);
     if (!inv) { run.count("skipped:Mref-singular"); return; }
@@ -79,6 +91,17 @@ static void checkModel(verif::Run& run, const std::string& section, const std::v
     M.matter.multiplyByMInv(s, g, out);
     { DMat gr = ref::mul(MrefInv, mbref::fromVector(g)); run.residual("multiplyByMInv-generic", (double)(ref::maxAbsDiff(mbref::fromVector(out), gr) / std::max<LD>(ref::maxAbs(gr), invScale) / cond), TOL, where); }
 
+    {
+        Matrix A(3, nu); A = 0; for (int i = 0; i < nu; ++i) A(1, i) = g[i];
+        Matrix Bm(3, nu); Bm.setTo(-7);
+        DMat gr = ref::mul(MrefInv, mbref::fromVector(g));
+        M.matter.multiplyByMInv(s, g, ~Bm[1]);
+        { Vector o2(nu); for (int i = 0; i < nu; ++i) o2[i] = Bm(1, i); run.residual("multiplyByMInv-strided-out", (double)(ref::maxAbsDiff(mbref::fromVector(o2), gr) / std::max<LD>(ref::maxAbs(gr), invScale) / cond), TOL, where); }
+        bool untouched = true; for (int i = 0; i < nu; ++i) untouched &= Bm(0, i) == -7 && Bm(2, i) == -7;
+        run.expect(untouched, "multiplyByMInv-strided-output-overwrites-neighbours", [&] { return "rows next to the strided result row were modified at " + desc; });
+        Vector o3(nu); M.matter.multiplyByMInv(s, ~A[1], o3);
+        run.residual("multiplyByMInv-strided-in", (double)(ref::maxAbsDiff(mbref::fromVector(o3), gr) / std::max<LD>(ref::maxAbs(gr), invScale) / cond), TOL, where);
+    }
     // kinetic energy
     DMat u = mbref::fromVector(s.getU());
     LD keRef = 0.5L * ref::mul(ref::transpose(u), ref::mul(Mref, u))(0, 0);
@@ -96,10 +119,10 @@ int main(int argc, char** argv) {
     verif::Run run("C01", argc, argv);
     run.setDeadline(150, 2400);
     const bool th = run.thorough();
-    run.rule = "E3: models = level A (every KINDxDIRxFRAMES variant as base/middle/tip/fork-branch of a 3-body tree with companions {Pin,Ball,Free}^2) and level B (all ordered parent->child pairs KIND^2xDIR^2xFRAMES{II,GG}^2), thorough adds level C (all triples over 8 code families, chain+fork, DIR^3); x COORD{quaternion,Euler} x MASS(3) x STATE(4: zero, generic, large-angle, zero-velocity); value set = seed%3 (thorough: all 3). distinct = distinct (model,coord,mass,state,valueset); non-trivial = nu>=1";
+    run.rule = "E3: models = level G (the variant and a companion both on Ground, either creation order, + a child: reaches the lone-particle fast path behind mobilizers with nq != nu), level A (every KINDxDIRxFRAMES variant as base/middle/tip/fork-branch of a 3-body tree with companions {Pin,Ball,Free}^2) and level B (all ordered parent->child pairs KIND^2xDIR^2xFRAMES{II,GG}^2), thorough adds level C (all triples over 8 code families, chain+fork, DIR^3); x COORD{quaternion,Euler} x MASS(3) x STATE(4: zero, generic, large-angle, zero-velocity); value set = seed%3 (thorough: all 3). distinct = distinct (model,coord,mass,state,valueset); non-trivial = nu>=1";
     run.assumptions = {"continuous values only from the fixed tables in engine/models.h", "trees of at most 3 mobilized bodies", "position/velocity kinematics (used to build J_ref) are themselves checked by C03/C05", "relative tolerance 1e-11 scaled by cond(M) for inverse routes"};
     std::vector<int> valueSets = th ? std::vector<int>{0, 1, 2} : std::vector<int>{(int)(((run.seed % 3) + 3) % 3)};
-    mb::LevelA A; mb::LevelB B; mb::LevelC C;
+    mb::LevelA A; mb::LevelB B; mb::LevelC C; mb::LevelG G;
     auto section = [&](const std::string& name, int64_t nModels, std::function<std::vector<mb::BodySpec>(int64_t, int)> specsOf) {
         verif::Odometer od;
         od.dim("state", 4); od.dim("mass", 3); od.dim("coord", 2); od.dim("valueset", (int64_t)valueSets.size()); od.dim("model", nModels);
@@ -115,6 +138,7 @@ int main(int argc, char** argv) {
         });
     };
     section("A", A.size(), [&](int64_t i, int m) { return A.specs(i, m); });
+    section("G", G.size(), [&](int64_t i, int m) { return G.specs(i, m); });
     section("B", B.size(), [&](int64_t i, int m) { return B.specs(i, m); });
     if (th) section("C", C.size(), [&](int64_t i, int m) { return C.specs(i, m); });
     run.extraCoverage["distinct_node_instantiations_note"] = "\"distinct_outcomes counts distinct RigidBodyNode typeid names plus distinct (nu,cond) signatures\"";
